@@ -30,7 +30,8 @@ PROBES = ["fault_fired", "fault_fired_after_children_completed", "fault_in_neste
           "twin_ops_compared", "fault_not_reached_cached"]
 EXC = ["ValueError", "CustomError", "KeyboardInterrupt", "SystemExit", "GeneratorExit", "MemoryError", "KeyError", "IndexError",
        "TypeError", "AttributeError", "StopIteration", "FileExistsError", "FileNotFoundError", "AssertionError", "RuntimeError",
-       "RecursionError", "OSError", "LookupError", "NotImplementedError", "ImportError", "DDSException"]
+       "RecursionError", "OSError", "LookupError", "NotImplementedError", "ImportError", "DDSException",
+       "FrozenError", "SlotsError"]
 
 PROFILE = {
     "feat": gen.swarm_feat,
